@@ -798,6 +798,49 @@ def upgradeClientO (s : Store) (chain cblob : Bytes) (cvalid : Bool) (consblob :
       else if !m.initOk then .err "upgrade state"
       else .ok (upgradeClient s chain cblob consblob h m)
 
+/-! ## BSC `UpdateClient`: what one accepted header writes (bsc/types/update.go, header.go `verifySeal`) -/
+
+/-- effects of an accepted BSC header at height `h`: `verifySeal` records the recent signer; `update()` stores the pending validator
+set ONLY at an epoch header and only a non-empty one (`ParseValidators` rejects an empty list; the record is never reset or
+deleted — it stays until the next epoch header overwrites it), deletes the recent-signer records that leave the window (more of
+them when the set in force shrinks at the switch height); the keeper then stores the new client state (header, validators in
+force) and the consensus state. The expiry pruning of the earliest consensus state is not modelled (trusting period not reached). -/
+def bscUpdate (s : Store) (chain : Bytes) (h : Height) (cblob consblob signer : Bytes) (pending : Option Bytes)
+    (dels : List Height) : Store :=
+  let s1 := bscSetSigner s chain h signer
+  let s2 := match pending with
+    | some p => bscSetPending s1 chain p
+    | none => s1
+  let s3 := dels.foldl (fun s d => bscDelSigner s chain d) s2
+  setConsensusState (setClientState s3 chain cblob) chain h consblob
+
+def bscUpdateGuard (s : Store) (chain cblob consblob signer : Bytes) (pending : Option Bytes) : Bool :=
+  noSlash chain && tyOfChain s chain == some .bsc && clientTy cblob == some .bsc && consTy consblob == some .bsc
+  && !signer.isEmpty && (match pending with | some p => !p.isEmpty | none => true)
+
+def bscUpdateO (s : Store) (chain : Bytes) (h : Height) (cblob consblob signer : Bytes) (pending : Option Bytes)
+    (dels : List Height) : Outcome Store :=
+  if bscUpdateGuard s chain cblob consblob signer pending then .ok (bscUpdate s chain h cblob consblob signer pending dels)
+  else .err "update"
+
+/-- the operations of a BSC light client's life: installed at an epoch header (create), carried by accepted headers (update) -/
+inductive BscOp where
+  | create (chain cblob consblob : Bytes) (h : Height) (signer pending : Bytes)
+  | update (chain : Bytes) (h : Height) (cblob consblob signer : Bytes) (pending : Option Bytes) (dels : List Height)
+
+def applyBsc (s : Store) : BscOp → Store
+  | .create chain cb sb h signer pending =>
+    if createGuard chain cb sb (.bsc signer pending) && clientTy cb == some .bsc && !signer.isEmpty && !pending.isEmpty
+        && (get s (clientKey chain kClientState)).isNone
+    then createClient s chain cb sb h (.bsc signer pending) else s
+  | .update chain h cb sb signer pending dels =>
+    if bscUpdateGuard s chain cb sb signer pending then bscUpdate s chain h cb sb signer pending dels else s
+
+/-- every value except the chain name is non-empty (in particular every client-metadata value, which
+`GenesisMetadata.Validate` demands of an export) -/
+def nonEmptyValsB (s : Store) : Bool := s.all (fun kv => kv.1 == kChainName || !kv.2.isEmpty)
+def NonEmptyVals (s : Store) : Prop := nonEmptyValsB s = true
+
 /-- the xibc store right after `InitGenesis` of a fresh chain: only the native chain name -/
 def freshStore (n : Bytes) : Store := setChainName [] n
 
